@@ -13,35 +13,69 @@ class HarnessHang(Exception):
 class TrackingStream:
     """File-like stream over a byte string that records what was handed out and
     detects logical non-termination: every turn of a correct reader loop
-    consumes at least one byte, so the number of read calls is bounded."""
+    consumes at least one byte, so the number of read calls is bounded.
 
-    def __init__(self, data: bytes):
-        self._b = io.BytesIO(data)
+    With `bursts` (a list of sizes) the stream behaves like a serial port with a
+    timeout: a read never crosses the end of the current burst, so reads may
+    return fewer bytes than requested (but never none while data remains)."""
+
+    def __init__(self, data: bytes, bursts=None):
         self.data = data
+        self.pos = 0
         self.calls = 0
         self.budget = 6 * len(data) + 16
         self.zero_reads = 0
+        self.short_reads = 0
+        self._ends = None
+        if bursts:
+            ends, e = [], 0
+            for b in bursts:
+                e += max(1, b)
+                if e >= len(data):
+                    break
+                ends.append(e)
+            self._ends = ends + [len(data)]
 
     def _tick(self):
         self.calls += 1
         if self.calls > self.budget:
             raise HarnessHang(f"{self.calls} stream calls for {len(self.data)} bytes")
 
+    def _limit(self):
+        if self._ends is None:
+            return len(self.data)
+        for e in self._ends:
+            if e > self.pos:
+                return e
+        return len(self.data)
+
     def read(self, n=-1):
         self._tick()
         if n == 0:
             self.zero_reads += 1
-        return self._b.read(n)
+            return b""
+        lim = self._limit()
+        end = lim if n is None or n < 0 else min(lim, self.pos + n)
+        out = self.data[self.pos:end]
+        if n is not None and 0 < len(out) < n:
+            self.short_reads += 1
+        self.pos = end
+        return out
 
     def readline(self):
         self._tick()
-        return self._b.readline()
+        lim = self._limit()
+        j = self.data.find(b"\n", self.pos, lim)
+        end = lim if j < 0 else j + 1
+        out = self.data[self.pos:end]
+        self.pos = end
+        return out
 
     def tell(self):
-        return self._b.tell()
+        return self.pos
 
     def rest(self):
-        return self.data[self._b.tell():]
+        return self.data[self.pos:]
 
 
 class ScriptedSocket(socket.socket):
